@@ -785,18 +785,36 @@ def short_lived_pairs(n=80):
         Pulse(pulse=f, parametrization=F, perform_checks=True)
         del f, F
         bad_kind = k % 3
-        if bad_kind == 0:
-            def g(x):                      # not normalised
+        # the new function objects are created in both orders (waveform first / parametrisation first): the allocator hands the
+        # freed blocks back in LIFO order, so either order may land on the addresses of the pair that was just dropped
+        if (k // 3) % 2 == 0:
+            if bad_kind == 0:
+                def G(x):
+                    return x
+                def g(x):                  # not normalised
+                    return 2.0 + 0 * x
+            elif bad_kind == 1:
+                def G(x):
+                    return 0.5 * x
+                def g(x):                  # parametrisation does not run from 0 to 1
+                    return 1.0 + 0 * x
+            else:
+                def G(x):
+                    return x * x
+                def g(x):                  # parametrisation is not the running integral of the waveform
+                    return 1.0 + 0 * x
+        elif bad_kind == 0:
+            def g(x):
                 return 2.0 + 0 * x
             def G(x):
                 return x
         elif bad_kind == 1:
-            def g(x):                      # parametrisation does not run from 0 to 1
+            def g(x):
                 return 1.0 + 0 * x
             def G(x):
                 return 0.5 * x
         else:
-            def g(x):                      # parametrisation is not the running integral of the waveform
+            def g(x):
                 return 1.0 + 0 * x
             def G(x):
                 return x * x
